@@ -58,7 +58,7 @@ def spelling_values():
         vals.extend(sorted(case_variants(w)))
     vals += [True, False]
     junk = ["", " ", "yes", "no", "2", "-1", "tru", "truee", " true", "true ", "TRUE\n", "t", "f", "on", "off", "none", "None", "01", "1.0", "0.0",
-            "fa lse", "fal\x00se", "ｔｒｕｅ", 0, 1, 2, None, 1.0, 0.0, b"1", b"true", [], (), object, "True1", "FALSE0", "İ", "ſ"]
+            "fa lse", "fal\x00se", "ｔｒｕｅ", 0, 1, 2, None, 1.0, 0.0, b"1", b"true", [], (), object, "True1", "FALSE0", "İ", "ſ", "falſe", "FALſE", "１", "０", "tr\u016be", "ｆalse"]
     return vals, junk
 
 
@@ -92,9 +92,13 @@ def config_cases(out, drv):
             ascii_ok = not isinstance(v, str) or v.isascii()
             out.case(("cfg", item, repr(v)), item.lower().startswith("jaxtyping_"), sample={"item": item, "value": repr(v), "observed": got})
             if not (ascii_ok and item.isascii()):
-                out.count("non_ascii_only_totality")
+                out.count("non_ascii")
                 if isinstance(got, str) and got.startswith("OTHER"):
                     out.violation(f"config:{got}", f"config.update({item!r}, {v!r}) raised {got}", {"item": item, "value": repr(v)})
+                elif item.isascii() and item.lower() in ("jaxtyping_disable", "jaxtyping_remove_typechecker_stack") and got != "VAL":
+                    # a letter or digit outside ASCII is not another CASE of an ASCII one (long s, fullwidth forms, ...): not one of 0/1/true/false
+                    out.violation("config:non-ascii:accept", f"config.update({item!r}, {v!r}) was accepted ({got}); {v!r} is not 0/1/true/false in any case, it must be rejected with ValueError",
+                                  {"item": item, "value": repr(v), "observed": got, "required": "VAL"})
                 continue
             w = drv.ask({"cmd": "cfg", "item": item, "val": to_model_val(v), "disable0": before[0], "remove0": before[1]})
             if got != w:
@@ -443,6 +447,42 @@ def behaviour_cases(out, rng, thorough):
                             cfg.update("jaxtyping_disable", False)
 
 
+def no_type_check_carrier_cases(out):
+    """where the `no_type_check` mark can sit when it is "below the decorator": on the function object at decoration time,
+    on the function object only LATER (the wrapper keeps a reference to the function, not a copy of its attributes), and on
+    the CLASS of a callable object (the instance has no such attribute of its own)"""
+    X = Float[Duck, "a b"]
+    good, bad = (Duck((2, 3), "float32"),), (Duck((2,), "float32"),)
+    for ck, tc in (("typeguard", typeguard.typechecked), ("beartype", beartype.beartype)):
+        def mk():
+            def f(x: X):
+                return "ran"
+            return f
+
+        @typing.no_type_check
+        class Marked:
+            def __call__(self, x: X):
+                return "ran"
+
+        carriers = {}
+        f1 = mk()
+        g1 = jaxtyped(typechecker=tc)(f1)
+        typing.no_type_check(f1)                       # marked after decoration
+        carriers["function marked after decoration"] = (g1, "ran")
+        try:
+            carriers["callable object whose class is marked"] = (jaxtyped(typechecker=tc)(Marked()), "ran")
+        except BaseException:  # noqa: BLE001
+            out.count("callable_object_not_decoratable")     # no claim: whether such objects can be decorated at all is not in the statement
+        carriers["function, no mark"] = (jaxtyped(typechecker=tc)(mk()), "tce")
+        for name, (g, want_bad) in carriers.items():
+            a, b = run_one(g, good), run_one(g, bad)
+            got_bad = "ran" if b[0] == "ret" else b[0]
+            out.case(("no_type_check-carrier", ck, name), True, sample={"checker": ck, "carrier": name, "well_typed": a[0], "ill_typed": b[0]})
+            if a[0] != "ret" or got_bad != want_bad:
+                out.violation(f"no_type_check-carrier:{ck}:{name}", f"{name} ({ck}): a well-typed call gives {a[0]}, an ill-typed one {b[0]}; must be ret and "
+                              f"{'the plain behaviour (returns)' if want_bad == 'ran' else 'a TypeCheckError'}", {"carrier": name, "checker": ck})
+
+
 def toggling_programs(out, drv, facts, rng, n):
     skel, wrap = extract.skel_request(facts)
     for _ in range(n):
@@ -476,6 +516,7 @@ def run(tier, seed, out, drv, facts):
     config_cases(out, drv)
     env_cases(out, thorough)
     behaviour_cases(out, rng, thorough)
+    no_type_check_carrier_cases(out)
     hooked_module_cases(out)
     toggling_programs(out, drv, facts, rng, 20000 if thorough else 150)
 
